@@ -97,6 +97,8 @@ def twin_c03(seed, n, style="mixed"):
                         v[5 + blk] = "0"
                 line = " ".join(v)
             a.append(line)
+            if style == "early" and r.random() < 0.3:
+                a.append(line)          # the same group twice in a row: what the extended check needs to show a value
         elif x < 0.94: a.append(g.setter())
         elif x < 0.96: a.append("clear")
         elif x < 0.97: a += ["new"] + ALL_CBS + g.settings_block()
@@ -128,17 +130,29 @@ def twin_c13(seed, n_pre, n_post):
     pre = g.prologue(all_cbs=r.random() < 0.8) + g.settings_block()
     # thresholds above 0 and the extended check make hidden state observable later
     if r.random() < 0.7: pre += ["c 1 0 %d" % r.choice([1, 2]), "c 0 0 %d" % r.choice([1, 2]), "c 2 0 %d" % r.choice([1, 2])]
+    early = (seed % 3 == 2)
+    if early:
+        # a very short history in which one block is flagged in every group: states that ordinary traffic leaves at once
+        # (only a PI known, only a candidate parked, only noisy text stored) are the ones a "nothing to clear" shortcut gets wrong
+        bad = 1 if r.random() < 0.6 else r.randrange(1, 4)
+        edge_pi = r.choice([0x00FF, 0x54FF, 0xFFFF, 0xFF00, 0x0000, 0x8000, 0x7FFF, 0x0100]) if r.random() < 0.7 else None
+        n_pre = len(pre) + r.randrange(1, 5)
     while len(pre) < n_pre:
         x = r.random()
-        if x < 0.9: pre.append(g.group(zero=0.85))
+        if early:
+            v = g.group(zero=0.9).split()
+            v[5 + bad] = str(r.choice([1, 2, 3]))
+            if edge_pi is not None: v[1] = str(edge_pi); v[5] = "0"      # a PI at the edge of its range, received cleanly
+            pre.append(" ".join(v))
+        elif x < 0.9: pre.append(g.group(zero=0.85))
         elif x < 0.95: pre.append(g.setter())
         elif x < 0.98: pre.append(g.observer())
         else: pre.append("clear")
     # make sure hidden state is left behind: pending candidates, AF candidates, RT flag, text cells
     last_flag = r.randrange(2)
-    pre += ["x 1", P(0xBEEF, 0x0000 | (7 << 5), 0x3C3D, 0x4142), P(0x1111, 0x2000 | (last_flag << 4), 0x4142, 0x4344),
+    if not early: pre += ["x 1", P(0xBEEF, 0x0000 | (7 << 5), 0x3C3D, 0x4142), P(0x1111, 0x2000 | (last_flag << 4), 0x4142, 0x4344),
             P(0x1111, 0x1000, 0x00E3, 0), "x %d" % r.randrange(2)]
-    if r.random() < 0.5:
+    if not early and r.random() < 0.5:
         # a session without the extended check that repeats values (candidate stage written while the check is off)
         pre += ["x 0", P(0xBEEF, 0x0000 | (7 << 5) | 0x18, 0x3C3D, 0x4142), P(0xBEEF, 0x0000 | (7 << 5) | 0x18, 0x3C3D, 0x4142),
                 P(0xBEEF, 0x1000, 0x00E3, 0), P(0xBEEF, 0x1000, 0x00E3, 0), "x %d" % r.randrange(2)]
@@ -172,6 +186,29 @@ def twin_c13(seed, n_pre, n_post):
     pairs = [(len(pre) + 1 + i, len(bpre) + 1 + i) for i in range(len(post))]
     # also: the state right after clear equals the state of the fresh twin
     pairs = [(len(pre), len(bpre))] + pairs
+    return {"a": a, "b": b, "pairs": pairs, "keys": None, "events": True, "ret": True, "nontrivial": len(post)}
+
+def twin_c13_edge(k):
+    """tiny deterministic histories that leave exactly ONE thing behind before the reset — a PI at the edge of its range received
+    with a clean block A only, once or twice, with or without the extended check; a single AF candidate; a single noisy RT
+    group; a single 1A group — followed by clear and by the same groups again"""
+    pis = [0x00FF, 0x54FF, 0xFFFF, 0xFF00, 0x0000, 0x8000, 0x7FFF, 0x0100]
+    pi = pis[k % len(pis)]
+    var = (k // len(pis)) % 6
+    pre = ["new"] + ALL_CBS + ["c 1 0 1", "c 0 0 1"]
+    if var in (1, 3, 5): pre.append("x 1")
+    only_a = P(pi, 0x0408, 0xE0E0, 0x4142, 0, 2, 3, 3)                 # nothing but block A usable
+    body = {0: [only_a], 1: [only_a], 2: [only_a, only_a], 3: [only_a, only_a],
+            4: [P(pi, 0x0000, 0x0A14, 0x4142, 0, 0, 0, 3)],            # PI + one AF pair, PS data rejected
+            5: [P(pi, 0x1000, 0x00E2, 0, 0, 0, 0, 0)]}[var]             # PI + ECC once under the extended check
+    pre += body
+    post = body + [P(pi, 0x0408, 0xE0E0, 0x4142), P(pi ^ 0x0100, 0x0408, 0xE0E0, 0x4142), P(pi, 0x2011, 0x4B52, 0x4450, 0, 1, 0, 0)]
+    tr = Tracker()
+    for line in pre: tr.feed(line)
+    a = pre + ["clear"] + post
+    bpre = ["new"] + tr.settings_ops() + tr.observer_ops()
+    b = bpre + ["q"] + post
+    pairs = [(len(pre), len(bpre))] + [(len(pre) + 1 + i, len(bpre) + 1 + i) for i in range(len(post))]
     return {"a": a, "b": b, "pairs": pairs, "keys": None, "events": True, "ret": True, "nontrivial": len(post)}
 
 # ---- C14 ---------------------------------------------------------------------------------
